@@ -1,6 +1,129 @@
-(** C16 (draft: table facts) *)
+(** C16 - only available, permitted services interchange; objects obey their lifecycle.
+    Statements only, each closed by [exact].  The state machines, pre-check maps, available sets and
+    priorities are [BXGen.Gen_ObjFsm], regenerated from the sources on every run. *)
 From BX Require Import Base.Prelude Base.Fsm Model.Gate Model.Lifecycle Proofs.LifecycleProofs.
 From BXGen Require Import Gen_ObjFsm.
-Theorem C16_forbidden_no_source_chain : no_exit_b KChain = true.
-Proof. exact forbidden_no_source_chain. Qed.
-Print Assumptions C16_forbidden_no_source_chain.
+From Coq Require Import String.
+Local Open Scope string_scope.
+
+(** * On the generated tables *)
+
+(** no entry of the appchain, service, role or node table, for any lastStatus, leaves [forbidden] *)
+Theorem C16_forbidden_terminal : forall k last ev, terminal_kind k = true -> fire k last St_Forbidden ev = None.
+Proof. exact forbidden_terminal. Qed.
+Print Assumptions C16_forbidden_terminal.
+
+(** a rule leaves [forbidden] only through the clear of its appchain's logout, to [unavailable] *)
+Theorem C16_rule_forbidden_exit : forall last ev d, fire KRule last St_Forbidden ev = Some d -> ev = Ev_CLear /\ d = St_Unavailable.
+Proof. exact rule_forbidden_exit. Qed.
+Print Assumptions C16_rule_forbidden_exit.
+
+(** the available sets; every available service status can be paused, pausing leads to a status that is not available *)
+Theorem C16_available_states :
+  (appchain_available = [St_Available; St_Freezing] /\ service_available = [St_Available; St_Freezing] /\ role_available = [St_Available; St_Freezing]) /\
+  forallb (fun s => pre_ok KSvc Ev_Pause s && option_eqb String.eqb (fire KSvc "" s Ev_Pause) (Some St_Pause)) service_available = true /\
+  (mem_s St_Pause service_available = false /\ mem_s St_Forbidden service_available = false).
+Proof. exact (conj available_sets (conj pause_covers_available pause_not_available)). Qed.
+Print Assumptions C16_available_states.
+
+(** the closure used to judge observed status changes contains every edge of every table, and from
+    [forbidden] it reaches nothing else *)
+Theorem C16_reach_table :
+  forallb (fun k => forallb (fun e : string * string => reach k (fst e) (snd e)) (kind_edges k ++ extra_edges k)) [KChain; KSvc; KRule; KRole; KNode] = true /\
+  forallb (fun k => forallb (fun b => negb (reach k St_Forbidden b) || String.eqb b St_Forbidden) ("" :: status_universe)) [KChain; KSvc; KRole; KNode] = true.
+Proof. exact (conj reach_contains_edges reach_forbidden_closed). Qed.
+Print Assumptions C16_reach_table.
+
+(** * Over all histories *)
+
+(** status changes happen only by firing the generated tables, and every change made by a step is
+    logged with its cause (the operation on the object, the conclusion of a proposal about it, a cascade of
+    its appchain); requests and restarts change no status *)
+Theorem C16_transitions_declared : forall f s o, committed s ->
+  let r := step f s o in
+  Forall entry_ok (r_log r) /\ chain_logged (r_log r) s (r_state r) /\ svc_logged (r_log r) s (r_state r) /\ role_logged (r_log r) s (r_state r).
+Proof. exact step_logged. Qed.
+Print Assumptions C16_transitions_declared.
+
+Theorem C16_driven : forall p cur s, log_rel s (snd (run p cur s)).
+Proof. exact run_logged. Qed.
+Print Assumptions C16_driven.
+
+(** the executor cache never disagrees with the stored service records *)
+Theorem C16_cache_consistent : forall f h, d_cache_failed_events f = false ->
+  cache_ok (run_ops f st0 h) /\ committed (run_ops f st0 h).
+Proof. exact (fun f h Hf => run_ops_keeps f h st0 Hf (proj1 st0_ok) (proj2 st0_ok)). Qed.
+Print Assumptions C16_cache_consistent.
+
+(** gating: after any history, a request is recorded as BEGIN only if - by the STORED records - the source
+    service is available and the destination exists, is available and does not refuse the source; it is
+    recorded as BEGIN_FAILURE only if the source is available and the destination is not usable; it is
+    rejected for the source only if the source is not available *)
+Theorem C16_gate : forall f h src dst, d_cache_failed_events f = false ->
+  let s := run_ops f st0 h in gate_sound (svcs s) src dst (ibtp_outcome s src dst) = true.
+Proof. exact gate_theorem. Qed.
+Print Assumptions C16_gate.
+
+(** logged out stays logged out, for every flag setting and every continuation of the history *)
+Theorem C16_logout_forever : forall f h s, forb_rel s (run_ops f s h).
+Proof. exact (fun f h s => run_ops_forbidden f h s). Qed.
+Print Assumptions C16_logout_forever.
+
+Theorem C16_logout_unusable : forall f h src dst r, d_cache_failed_events f = false ->
+  let s := run_ops f st0 h in
+  sget src (svcs s) = Some r -> sv_status r = St_Forbidden ->
+  ibtp_outcome s src dst = ORejSrc \/ ibtp_outcome s src dst = OProof.
+Proof. exact forbidden_source_refused. Qed.
+Print Assumptions C16_logout_unusable.
+
+(** cascade (partial: the postcondition of the approval; that it keeps holding until the appchain is activated
+    is evaluated on every trace by [cascade_obs], not proved): concluding an appchain freeze proposal with
+    approval leaves none of the appchain's registered services available *)
+Theorem C16_cascade_partial : forall f s k p pid,
+  nth_open false k (props s) = Some pid -> nth_error (props s) (N.to_nat pid) = Some p ->
+  p_kind p = KChain -> p_event p = Ev_Freeze ->
+  r_ok (step f s (OConclude k true)) = true ->
+  forall i, In i (reg_of (p_obj p) s) -> unav (r_state (step f s (OConclude k true))) i.
+Proof. exact step_cascade_freeze. Qed.
+Print Assumptions C16_cascade_partial.
+
+(** the predicate the judge evaluates on implementation traces *)
+Theorem C16_P_b_spec : forall h tr, P_b h tr = true <-> P_from h obs0 tr.
+Proof. exact P_b_spec. Qed.
+Print Assumptions C16_P_b_spec.
+
+(** * Refutations on the faithful model *)
+Theorem C16_logout_reject_refuted : P_b h_logout_reject (model_trace (cfg_of_bits false false true) h_logout_reject) = false.
+Proof. exact logout_reject_refuted. Qed.
+Print Assumptions C16_logout_reject_refuted.
+Theorem C16_logout_reject_fixed : P_b h_logout_reject (model_trace cfg_fixed h_logout_reject) = true.
+Proof. exact logout_reject_fixed. Qed.
+
+Theorem C16_stale_cache_refuted : P_b h_stale_cache (model_trace (cfg_of_bits true true false) h_stale_cache) = false.
+Proof. exact stale_cache_refuted. Qed.
+Print Assumptions C16_stale_cache_refuted.
+Theorem C16_stale_cache_fixed : P_b h_stale_cache (model_trace cfg_fixed h_stale_cache) = true.
+Proof. exact stale_cache_fixed. Qed.
+
+(** not reloading the cache is harmless for gating on its own, yet makes a restarted node differ from a running one *)
+Theorem C16_restart_divergence_refuted :
+  let f := cfg_of_bits true true false in
+  let h := firstn 17 h_stale_cache in
+  ibtp_outcome (run_ops f st0 h) 10 20 <> ibtp_outcome (run_ops f st0 (h ++ [ORestart])) 10 20.
+Proof. exact restart_divergence. Qed.
+Print Assumptions C16_restart_divergence_refuted.
+
+(** * Non-vacuity *)
+Example C16_gate_example :
+  map r_out (trace cfg_fixed st0 (setup ++ [OIbtp 10 20; OSvcBlack 20 [10]; OIbtp 10 20; OSvcOp 1 10 []; OConclude 0 true; OIbtp 10 20]))%N
+  = [9; 9; 9; 9; 9; 9; 9; 9; 0; 9; 1; 9; 9; 2]%N.
+Proof. exact gate_example. Qed.
+Example C16_cascade_example :
+  map (fun e : N * svc => (fst e, sv_status (snd e))) (ob_svcs (obs_of (last (trace cfg_fixed st0 (setup ++ [OChainOp 1 1; OConclude 0 true]))
+                                                                           {| r_ok := true; r_out := 9; r_log := []; r_state := st0 |})))
+  = [(10, St_Pause); (20, St_Available)]%N.
+Proof. exact cascade_example. Qed.
+Example C16_forever_example :
+  let h := (setup ++ [OSvcOp 3 10 []; OConclude 0 true; OSvcOp 2 10 []; ORegSvc 1 10 []; OIbtp 10 20])%list in
+  map (fun r => (r_ok r, r_out r)) (skipn 9 (trace cfg_fixed st0 h)) = [(true, 9); (false, 9); (false, 9); (true, 2)]%N.
+Proof. exact forever_example. Qed.
